@@ -74,9 +74,11 @@ func (*diff) ViewAttrChanges(_, _ *schema.View) []schema.Change {
 
 // ColumnChange returns the schema changes (if any) for migrating one column to the other.
 // Note that column comments are ignored as SQLite does not support it.
-func (d *diff) ColumnChange(_ *schema.Table, from, to *schema.Column, _ *schema.DiffOptions) (schema.Change, error) {
+func (d *diff) ColumnChange(fromT *schema.Table, from, to *schema.Column, _ *schema.DiffOptions) (schema.Change, error) {
 	var change schema.ChangeKind
-	if from.Type.Null != to.Type.Null {
+	// SQLite forces NOT NULL on the primary key columns of WITHOUT ROWID tables (and reports them
+	// as such) regardless of their definition. Comparing it results in an endless table rebuild.
+	if from.Type.Null != to.Type.Null && !(to.Type.Null && withoutRowIDKey(fromT, from)) {
 		change |= schema.ChangeNull
 	}
 	changed, err := d.typeChanged(from, to)
@@ -100,6 +102,19 @@ func (d *diff) ColumnChange(_ *schema.Table, from, to *schema.Column, _ *schema.
 		From:   from,
 		To:     to,
 	}, nil
+}
+
+// withoutRowIDKey reports if the column is part of the primary key of a WITHOUT ROWID table.
+func withoutRowIDKey(t *schema.Table, c *schema.Column) bool {
+	if t == nil || t.PrimaryKey == nil || !sqlx.Has(t.Attrs, &WithoutRowID{}) {
+		return false
+	}
+	for _, p := range t.PrimaryKey.Parts {
+		if p.C == c {
+			return true
+		}
+	}
+	return false
 }
 
 // typeChanged reports if the column type was changed.
